@@ -117,11 +117,11 @@ def replayStep {α : Type} (S : OpSem α) (fns : List Fn) (args : List α) (r : 
       ⟨r.henv ++ takeN vs (outCount (o.getD (.auto f.outputs.length))), r.nin⟩
   | .inline fi a o _ as =>
     -- inlining a function means what calling it means (ONNX function semantics); where `call_inline` refuses
-    -- (unknown function, a literal operand, too many operands, wrong number of `_outputs`) nothing is traced
+    -- (unknown function, too many operands, wrong number of `_outputs`; before 06b8334 also a literal operand) nothing is traced
     match fns[fi]? with
     | none => r
     | some f =>
-      if !(a.all isRef) || decide (a.length > f.formals.length) || outsMismatch o f then r
+      if (!inlineAdapts && !(a.all isRef)) || decide (a.length > f.formals.length) || outsMismatch o f then r
       else ⟨r.henv ++ callMeaning S f as (a.map (argVal S r.henv)), r.nin⟩
   | _ => r
 
